@@ -139,6 +139,19 @@ def driver(name, variant):
         _run(["clang++" if clang else "g++"] + SAN_FLAGS[sanclass] + ["-o", "@OUT@"] + objs + [mi, WRAP, "-lpthread", "-ldl", "-rdynamic"], out)
     return out
 
+def static_driver(name, variant, extra_flags=()):
+    """a C driver that #includes src/static.c itself (access to static functions); linked with vf_common only"""
+    cc, flags, sanclass = VARIANTS[variant]
+    out = os.path.join(build_dir(), "%s.%s" % (name, variant))
+    with _lock_for(out):
+        if os.path.exists(out):
+            return out
+        common = harness_obj("vf_common.c", sanclass)
+        obj = out + ".o"
+        _run([cc] + COMMON_C + flags + list(extra_flags) + ["-I" + os.path.join(REPO, "src"), "-I" + HARNESS, "-Wno-unused-function", "-c", os.path.join(HARNESS, name + ".c"), "-o", "@OUT@"], obj)
+        _run([cc] + SAN_FLAGS[sanclass] + ["-o", "@OUT@", obj, common, "-lpthread", "-ldl", "-rdynamic"], out)
+    return out
+
 def build_many(pairs, jobs=8):
     """pairs: list of (driver name, variant); builds in parallel, returns dict"""
     res = {}
